@@ -69,6 +69,11 @@ def call_external(h: Any, name: str, args: List[AV], kwargs: Dict[str, AV], node
         return h.to_str(args[0], False, node)
     if short == "repr":
         return h.to_str(args[0], True, node)
+    if short == "ascii":
+        r = h.to_str(args[0], True, node)
+        if isinstance(r, Const) and isinstance(r.value, str):
+            return Const(ascii(args[0].value) if isinstance(args[0], Const) else r.value)
+        return Term("ascii", (args[0],), ctx.new_id()) if not (isinstance(r, Term) and r.op == "repr") else Term("ascii", r.args, ctx.new_id())
     if short in ("int", "float"):
         return convert_number(h, short, args, node)
     if short in ("list", "tuple"):
@@ -426,10 +431,26 @@ def convert_number(h: Any, which: str, args: List[AV], node: Any) -> AV:
     raise h.unsupported(node, f"{which}({v!r})")
 
 
+STR_PREDICATES = {"isalnum", "isalpha", "isascii", "isdecimal", "isdigit", "isidentifier", "islower", "isnumeric", "isprintable", "isspace", "istitle", "isupper"}
+STR_ONLY_METHODS = STR_PREDICATES | {
+    "startswith", "endswith", "lower", "upper", "casefold", "strip", "lstrip", "rstrip", "replace", "encode", "split", "rsplit",
+    "splitlines", "partition", "rpartition", "join", "format", "title", "capitalize", "swapcase", "zfill", "center", "ljust", "rjust",
+    "expandtabs", "translate", "removeprefix", "removesuffix", "find", "rfind",
+}
+
+
 def call_method(h: Any, recv: AV, name: str, args: List[AV], kwargs: Dict[str, AV], node: Any) -> AV:
     i = h.i
     ctx = h.ctx
     from .absint import hkey
+
+    if name in ("format", "format_map") and not isinstance(recv, Const) and (isinstance(recv, (SymStr, SymChar)) or h.is_strlike(recv) or (isinstance(recv, Sym) and i.kind_of(recv) == "str")):
+        # a format string that is not a literal: its braces are data.  A lone '{' or '}' raises ValueError, a
+        # field the arguments do not supply raises KeyError / IndexError.
+        how = ctx.choose(("dynamic-format", getattr(recv, "id", 0), i.site(node)), ["ok", "ValueError", "KeyError", "IndexError"])
+        if how != "ok":
+            raise h.raise_(how, "format string built from data: braces in the data are read as replacement fields", node)
+        return Term("strmeth", (recv, name, tuple(args)), ctx.new_id())
 
     # ---------------- concrete lists (also deques)
     if isinstance(recv, PyList):
@@ -761,10 +782,19 @@ def call_method(h: Any, recv: AV, name: str, args: List[AV], kwargs: Dict[str, A
         t = Term("re." + name, (recv,) + tuple(args), ctx.new_id())
         ctx.atom_info[("truth", "term", t.id)] = {"kind": "regex", "mode": name, "pattern": recv.args[0] if recv.args else None, "subject": args[0] if args else None, "pos": args[1] if len(args) > 1 else None}
         return t
-    if isinstance(recv, Term) and recv.op in ("strmeth", "concat", "fstr", "str", "repr", "join", "json.dumps", "strslice", "canonical"):
+    if isinstance(recv, Term) and recv.op in ("strmeth", "concat", "fstr", "str", "repr", "ascii", "join", "json.dumps", "strslice", "canonical"):
         return Term("strmeth", (recv, name, tuple(args)), ctx.new_id())
     if isinstance(recv, (Opaque, Term)):
         return h.opaque_call(recv, name, args, kwargs, node)
+    if isinstance(recv, Sym) and name in STR_ONLY_METHODS:
+        k = i.kind_of(recv)
+        if k != "str":
+            raise h.raise_("AttributeError", f"{k} value has no attribute {name!r}", node)
+        if name in STR_PREDICATES:
+            return Const(ctx.choose(("strpred", recv.id, name), [False, True]))
+        if name in ("startswith", "endswith"):
+            return Const(ctx.choose(("strpred", recv.id, name, repr(args)), [False, True]))
+        return Term("strmeth", (recv, name, tuple(args)), ctx.new_id())
     raise h.unsupported(node, f"method {name} on {recv!r}")
 
 
